@@ -80,12 +80,15 @@ def check_C16(run):
     scen.append(sc_key("sess-slru-cap1-holders+churn3", sessCache=True, sessPolicy="slru", sessCap=1, parts=3, workers=3, ops=2, policy="simple", shared=False, churn=True))
     scen.append(sc_key("sess-slru-cap2-share", sessCache=True, sessPolicy="slru", sessCap=2, parts=2, workers=3, ops=1, policy="simple", shared=False, samePart=True))
     # tinylfu only has its admission window from capacity 100 on: more partitions than that, re-requested while in the window
-    scen.append(sc_key("sess-tinylfu-cap100-104parts", sessCache=True, sessPolicy="tinylfu", sessCap=100, parts=104, workers=2, ops=3, policy="simple", shared=False, samePart=True))
     scen.append(sc_key("sess-lru-cap1-expiry", sessCache=True, sessPolicy="lru", sessCap=2, sessExpiry=1, ticks=3, parts=2, workers=2, ops=2, policy="simple", shared=False, samePart=True))
     if not q:
         scen.append(sc_key("sess-slru-cap2-4parts-3w", sessCache=True, sessPolicy="slru", sessCap=2, parts=4, workers=3, ops=2, policy="simple", shared=False, samePart=True))
         scen.append(sc_key("sess-lru-cap1-sharedik", sessCache=True, sessPolicy="lru", sessCap=1, parts=2, workers=2, ops=2, policy="lru", capacity=1, shared=True, samePart=True))
     explore(run, scen, random=40 if q else 400, pct=150 if q else 1500, dfs=300 if q else 5000, preempt=2, label="sessioncache")
+    # (every schedule of this workload starts with 104 sequential encrypts: a fixed, modest budget in both tiers)
+    big = [sc_key("sess-tinylfu-cap100-104parts", sessCache=True, sessPolicy="tinylfu", sessCap=100, parts=104, workers=2, ops=3, policy="simple", shared=False, samePart=True)]
+    explore(run, big, random=40, pct=150, dfs=300 if q else 600, preempt=2, label="sessioncache-tinylfu100")
+    scen = scen + big
     return run.finish("model_checking",
                       "design: TLC explores SessionCache.tla (get / use / close / evict / remove steps, usage counter and condition variable) with HeldSessionNeverTornDown and exactly-once teardown, liveness under fairness; real code: %d workloads (policies, capacity 1-2 below the number of partitions, expiry by virtual clock, shared holders) x seeded random + PCT + systematic <= 2 preemptions; every schedule validated by TLC against RefMonitor.tla (operations on held sessions succeed, cached partition shared, everything released exactly once after factory close, no deadlock). non-trivial = schedule with at least one preemption" % len(scen),
                       ASSUME, explanation="%d schedules executed, %d traces / %d events accepted by TLC" % (run.evaluations, run.traces_validated, run.events_validated))
